@@ -210,6 +210,10 @@ def main(argv=None):
     ap.add_argument("--replay")
     ap.add_argument("--confirm", action="store_true")
     a = ap.parse_args(argv)
+    if os.environ.get("PYTHONHASHSEED") is None and argv is None:
+        # string hashing must be the same in this process, its forked workers and the fresh confirming processes
+        os.environ["PYTHONHASHSEED"] = "0"
+        os.execv(sys.executable, [sys.executable, "-m", "mc.run"] + sys.argv[1:])
     os.environ.setdefault("PYTHONHASHSEED", "0")
     os.environ.setdefault("LC_ALL", "C.UTF-8")
     os.environ.setdefault("PYTHONUTF8", "1")
